@@ -568,6 +568,8 @@ class Explorer:
                     args = {}
                     for p_, (t, pinned) in P.param_types.items():
                         args[p_] = cz.value(pinned) if pinned is not None else cz.entry(t, p_)
+                    for dst, src in c.aliases.items():
+                        seqs.apply_alias(args, dst, src)
                     return {'args': args, 'ghost': ghost_values(model), 'bound': B}, 'sat'
                 except Exception as e:
                     return None, f'concretize-error: {type(e).__name__}: {e}'
